@@ -178,8 +178,11 @@ class FNet(object):
       self.ticks += 1
       if self.on_tick is not None:
         self.on_tick()
+    elif self.after_task is not None:
+      self.after_task()
 
   on_tick = None
+  after_task = None
 
   def _settle(self):
     for _ in range(100000):
